@@ -20,8 +20,7 @@ MANIFEST = {
         "text": "TLC exhaustively checks, for all three recovery configurations, with and without a health-check statement, a "
                 "master, and replication checking, that the code-level round functions change node status only by the rules of "
                 "the property (down-after rule on lastChecked, replication rule, up after a passed probe subject to the recovery "
-                "policy, frame conditions between master and replica and for clock advances), listing the one corner where the "
-                "code leaves the property.  TLC-generated histories (all histories of a bounded length over a reduced input "
+                "policy, frame conditions between master and replica and for clock advances).  TLC-generated histories (all histories of a bounded length over a reduced input "
                 "alphabet, plus seeded long ones over every probe script x every replication state x master state x clock "
                 "advance) are replayed on the real checkWith*Recovery functions and the real master-check loop under the injected "
                 "clock with scripted pools; the status of both nodes must be in the set the specification allows after every event.",
@@ -53,7 +52,6 @@ def run(ctx):
         "a probe passes when GetCheck returns a connection and either the health statement succeeds or four repeats of "
         "(health statement fails with an ordinary error | none configured, ping ok, select 1 ok) complete; server-shutdown, "
         "tablespace-missing/discarded and timeout errors of the health statement, a ping error or a select-1 error fail it",
-        "a round with the master down is judged by C28 for the probe result (C27 judges the recovery condition)",
     ]
     known = [c["case"] for c in vlib.known_replay_cases(ctx.pid) if isinstance(c, dict) and c.get("kind") == "node"]
     if ctx.replay:
@@ -63,47 +61,40 @@ def run(ctx):
 
     jobs = []
     # 1. exhaustive check of the round rules
-    mcs = [H.hc_params("off", "C28", maxtime=109), H.hc_params("hard", "C28", maxtime=106, downafter=4, cool=3),
-           H.hc_params("gradual", "C28", w=1, min=1, maxtime=104, downafter=4, maxlevel=3),
-           H.hc_params("off", "C28", maxtime=108, downafter=4, sbm=0, healthsql="FALSE"), H.hc_params("off", "C28", maxtime=108, hasmaster="FALSE")]
+    mcs = [H.hc_params("off", maxtime=109), H.hc_params("hard", maxtime=106, downafter=4, cool=3),
+           H.hc_params("gradual", w=1, min=1, maxtime=104, downafter=4, maxlevel=3),
+           H.hc_params("off", maxtime=108, downafter=4, sbm=0, healthsql="FALSE"), H.hc_params("off", maxtime=108, hasmaster="FALSE")]
     if thorough:
-        mcs = [H.hc_params("off", "C28", maxtime=116, syncs="Syncs"), H.hc_params("hard", "C28", maxtime=110),
-               H.hc_params("gradual", "C28", maxtime=104, downafter=4),
-               H.hc_params("off", "C28", maxtime=112, downafter=4, sbm=0, healthsql="FALSE"), H.hc_params("off", "C28", maxtime=112, hasmaster="FALSE"),
-               H.hc_params("hard", "C28", maxtime=108, downafter=4), H.hc_params("gradual", "C28", maxtime=104, downafter=4, maxlevel=3, healthsql="FALSE"),
-               H.hc_params("gradual", "C28", maxtime=104, downafter=4, maxlevel=3, hasmaster="FALSE", sbm=0)]
+        mcs = [H.hc_params("off", maxtime=116, syncs="Syncs"), H.hc_params("hard", maxtime=110),
+               H.hc_params("gradual", maxtime=104, downafter=4),
+               H.hc_params("off", maxtime=112, downafter=4, sbm=0, healthsql="FALSE"), H.hc_params("off", maxtime=112, hasmaster="FALSE"),
+               H.hc_params("hard", maxtime=108, downafter=4), H.hc_params("gradual", maxtime=104, downafter=4, maxlevel=3, healthsql="FALSE"),
+               H.hc_params("gradual", maxtime=104, downafter=4, maxlevel=3, hasmaster="FALSE", sbm=0)]
     for p in mcs:
         jobs.append(dict(module="HealthCheck", cfg_text=H.HC_MC % p, coverage=True, workers=4,
                          label="mc rounds policy=%(policy)s downafter=%(downafter)d sbm=%(sbm)d healthsql=%(healthsql)s hasmaster=%(hasmaster)s" % p))
-    pc = H.hc_params("off", "C28", maxtime=109, extra="CONSTANT KnownCorner <- NoCorner")
-    jobs.append(dict(module="HealthCheck", cfg_text=H.HC_MC % pc, allow_violation=True, label="mc rounds without the known-corner exception"))
     n_mc = len(jobs)
 
     # 2. generation: every history of a bounded length over the reduced alphabet (down-after of one and of two rounds) ...
     bfs = [("off", 8, 3), ("off", 4, 3), ("hard", 8, 3), ("gradual", 4, 3)] if not thorough else [("off", 8, 4), ("gradual", 4, 4), ("hard", 8, 3), ("off", 4, 3), ("gradual", 8, 3)]
     for pol, da, ln in bfs:
-        p = H.hc_params(pol, "C28", mode="bfs", len=ln, downafter=da, maxtime=10 ** 6)
+        p = H.hc_params(pol, mode="bfs", len=ln, downafter=da, maxtime=10 ** 6)
         jobs.append(dict(module="HealthCheck_gen", cfg_text=H.HC_GEN % p, workers=1, emit=True,
                          label="gen all round histories policy=%s downafter=%d len=%d" % (pol, da, ln)))
     # ... and seeded long histories over the full alphabet
-    plans = [dict(p=H.hc_params("off", "C28", len=30), num=120), dict(p=H.hc_params("hard", "C28", len=30), num=80),
-             dict(p=H.hc_params("gradual", "C28", len=40), num=120), dict(p=H.hc_params("off", "C28", len=24, downafter=4, healthsql="FALSE"), num=60),
-             dict(p=H.hc_params("off", "C28", len=24, hasmaster="FALSE"), num=40), dict(p=H.hc_params("gradual", "C28", len=30, sbm=0), num=40)]
+    plans = [dict(p=H.hc_params("off", len=30), num=120), dict(p=H.hc_params("hard", len=30), num=80),
+             dict(p=H.hc_params("gradual", len=40), num=120), dict(p=H.hc_params("off", len=24, downafter=4, healthsql="FALSE"), num=60),
+             dict(p=H.hc_params("off", len=24, hasmaster="FALSE"), num=40), dict(p=H.hc_params("gradual", len=30, sbm=0), num=40)]
     if thorough:
         for pl in plans:
             pl["num"] *= 12
-        plans += [dict(p=H.hc_params("hard", "C28", len=40, downafter=12, sbm=1), num=600),
-                  dict(p=H.hc_params("gradual", "C28", len=60, downafter=16, healthsql="FALSE", hasmaster="FALSE"), num=600)]
+        plans += [dict(p=H.hc_params("hard", len=40, downafter=12, sbm=1), num=600),
+                  dict(p=H.hc_params("gradual", len=60, downafter=16, healthsql="FALSE", hasmaster="FALSE"), num=600)]
     for pl in plans:
         p = dict(pl["p"], maxtime=10 ** 6)
         jobs.append(dict(module="HealthCheck_gen", cfg_text=H.HC_GEN % p, sim=pl["num"], depth=p["len"] + 1, seed=seed(),
                          label="gen round histories policy=%(policy)s downafter=%(downafter)d sbm=%(sbm)d healthsql=%(healthsql)s hasmaster=%(hasmaster)s" % p))
     res = H.run_jobs(ctx, jobs, parallel=4 if thorough else 6)
-    corner = res[n_mc - 1]
-    ctx.cov["tlc_counterexample_without_corner_exception"] = corner.violated
-    if not corner.violated:
-        ctx.notes.append("TLC found no counterexample when the known-corner exception was removed")
-
     cases = []
     for r in res[n_mc:]:
         cases += r.cases
